@@ -566,6 +566,35 @@ func c13(g *Gen) {
 			}
 		}
 	}
+	// (1b) a SnippetWriter directly over the failing writer (no tracker in between): the failure of the
+	// destination is an error of the snippet writer like any other -- reported by Error(), first one kept,
+	// nothing written afterwards
+	for nw := 1; nw <= 4; nw++ {
+		for failAt := 0; failAt <= nw; failAt++ {
+			for _, part := range []int{0, 1} {
+				fw := &faultyWriter{failAt: failAt, part: part, eid: 7}
+				sw := generator.NewSnippetWriter(fw, &generator.Context{Namers: namer.NameSystems{}}, "$", "$")
+				texts := []string{"ab", "cde", "f", "ghij"}[:nw]
+				for _, x := range texts {
+					sw.Do(x, nil)
+				}
+				var problems []string
+				err := sw.Error()
+				switch {
+				case failAt < nw && err == nil:
+					problems = append(problems, fmt.Sprintf("write %d of %d failed, Error() is nil", failAt, nw))
+				case failAt < nw && !strings.Contains(err.Error(), "FW:7"):
+					problems = append(problems, fmt.Sprintf("write %d failed with FW:7, Error() is %q", failAt, err.Error()))
+				case failAt >= nw && err != nil:
+					problems = append(problems, "no write failed, Error() is "+err.Error())
+				}
+				if want := failAt + 1; failAt < nw && fw.count != want {
+					problems = append(problems, fmt.Sprintf("the destination was written to %d times, the failure was at its call %d", fw.count, failAt))
+				}
+				g.Emit("C13.snippet-write!", list(num(nw), num(failAt), num(part), atom(strings.Join(problems, "; "))), boolS(len(problems) == 0), "snippet-writer-over-failing-destination")
+			}
+		}
+	}
 	// (2) executeBody over a failing writer, a fault at every write index and at every hook
 	for ntypes := 0; ntypes <= 3; ntypes++ {
 		var orderT []*types.Type
